@@ -128,13 +128,15 @@ def replay_under(ctx, tags, extra_args=None):
                               tag, m["kind"], m["line"], m["step"], m["what"], json.dumps(m["exp"]), json.dumps(m["got"])))
 
 
-def stream_traces(ctx, kinds, n):
-    """impl -> spec: random histories on arbitrary floats recorded from the real streams (with real twins), validated by TLC"""
+def stream_traces(ctx, kinds, n, structure_only=False):
+    """impl -> spec: random histories on arbitrary floats recorded from the real streams (with real twins), validated by TLC.
+    structure_only (C05): return value, category, error identity, timestamp, purity, reset twin and skip twin only."""
     from p_pure import trace_check
     bindir = build_harness(["streams"])
-    trace_check(ctx, "StreamsTrace", bindir, "streams", [ctx.seed, n, ",".join(kinds)], "floats",
-                "stateful streams on arbitrary floats (category, error identity, timestamp, reset / skip / shift / scale / variant twins, filter bounds)",
-                "streams_trace", timeout=1500)
+    what = ("stateful streams on arbitrary floats (category, error identity, timestamp, purity, reset / skip twins)" if structure_only else
+            "stateful streams on arbitrary floats (category, error identity, timestamp, reset / skip / shift / scale / variant twins, filter bounds, f64 reference)")
+    trace_check(ctx, "StreamsTrace", bindir, "streams", [ctx.seed, n, ",".join(kinds)], "floats", what,
+                "streams_trace", timeout=1500, constants={"StructureOnly": structure_only})
 
 
 @replayer("streams_trace")
@@ -142,7 +144,8 @@ def replay_streams_trace(pid, v):
     from p_pure import trace_check
     ctx = vlib.Ctx(pid + "_replay", "quick", 1)
     bindir = build_harness(["streams"])
-    ok = trace_check(ctx, "StreamsTrace", bindir, "streams", v["record_args"], "floats", "stateful streams on arbitrary floats", "streams_trace")
+    ok = trace_check(ctx, "StreamsTrace", bindir, "streams", v["record_args"], "floats", "stateful streams on arbitrary floats", "streams_trace",
+                     constants=v.get("constants") or {"StructureOnly": False})
     return None if ok else ctx.violations[0][2]
 
 
@@ -230,7 +233,7 @@ def c05(ctx):
     p = tier_params(ctx)
     # C05 is about outcome categories, error identities, resets and purity: numbers are compared by C04/C10/C11/C12
     mism, summary, total = run_streams(ctx, ALL, structure_only=True, **p)
-    stream_traces(ctx, ALL, 600 if ctx.tier == "quick" else 10000)
+    stream_traces(ctx, ALL, 600 if ctx.tier == "quick" else 10000, structure_only=True)
     nob = vlib.run_tlapm(ctx, "StreamShapesProof", ["StreamShapes"])
     ctx.notes.append("TLAPS: StreamShapesProof.tla proves (%d obligations), for histories of any length and each of the 13 non-freeze kinds, that the "
                      "output category is present exactly when the count of present samples since the last reset has reached the kind's threshold, "
